@@ -124,7 +124,7 @@ def match_table(grammar, w, names=None):
             if p < len(w):
                 try:
                     m = t.recognizer(w, p)
-                except (TypeError, IndexError):
+                except Exception:  # noqa: BLE001  (a recognizer that raises matches nothing here; what the PARSER does with it is observed by the run)
                     m = None
             if type(m) is tuple:
                 m = m[0]
